@@ -51,6 +51,14 @@ func WarpTargetFullType(targetType string) (string, string) {
 		}
 	}
 
+	// a class of the current package comes before a namesake of another package
+	for _, clz := range clzs {
+		if clz == currentPkg+"."+pureTargetType {
+			callType = "same package"
+			return clz, callType
+		}
+	}
+
 	for _, clz := range clzs {
 		if strings.HasSuffix(clz, "."+pureTargetType) {
 			callType = "same package"
